@@ -1,5 +1,670 @@
-import EnvVerif.Lemmas.Basic
+/-
+  Props/C19.lean — attachments (`src/extension/attachment/attachment_impl.rs`) and types
+  (`src/extension/types.rs`).
+
+  Vocabulary (definitions in Lemmas/ExtLemmas.lean):
+  * `attachmentOf h payload v c` — the assertion `Assertion::new_attachment` builds
+    (`newAttachment h payload v c = .ok (attachmentOf h payload v c)`, it is total);
+  * `AttGood h v c` — the collision-freedom facts it relies on: the 'vendor' and 'conformsTo'
+    known values have different digests and (when `c = some c'`) so have the two assertions
+    `'vendor': v` and `'conformsTo': c'`.  Without the second one `add_assertion` would drop
+    the conformsTo assertion as a duplicate;
+  * `addAttachments h e L` — a fold of `add_attachment` over (payload, vendor, conformsTo)
+    triples; `attOfT h t` the attachment assertion of a triple.
+
+  An add whose digest is already among the receiver's assertions is ignored by the library;
+  so the "exactly the added ones" statements assume that an assertion of the receiver with the
+  digest of an added element *is* that element (`hcross`; in particular true when no assertion
+  of the receiver has such a digest), and that the added elements have pairwise different
+  digests unless equal (`DigInj`).  `c19_addType_elided_witness` shows the hypothesis is
+  needed: an elided `'isA': t` assertion makes `add_type(t)` a no-op and `has_type(t)` false.
+-/
+import EnvVerif.Lemmas.ExtLemmas
 namespace EnvVerif
-/-- placeholder while the property theorems are being written -/
-theorem c19_sort_asc_id {as : List Env} (hs : AscDigests as) : sortByDigest as = as := sortByDigest_of_asc hs
+open Env AW ExtL
+
+/-! ### one attachment -/
+
+/-- `new_attachment` is total and its result is an assertion `'attachment': obj` whose object
+has the wrapped payload as subject -/
+theorem c19_newAttachment_total (h : Hash) (payload : Env) (v : Bytes) (c : Option Bytes) :
+    newAttachment h payload v c = .ok (attachmentOf h payload v c) ∧
+    attachmentOf h payload v c =
+      newAssertion h (newKnownValue h KV_ATTACHMENT) (attachmentObject h payload v c) ∧
+    (attachmentObject h payload v c).subject = wrap h payload ∧
+    (attachmentOf h payload v none).digest =
+      (newAssertion h (newKnownValue h KV_ATTACHMENT)
+        (.node (wrap h payload) [vendorAssertion h v]
+          (h.ofDigests [(wrap h payload).digest, (vendorAssertion h v).digest]))).digest :=
+  ⟨newAttachment_eq h payload v c, rfl, rfl, rfl⟩
+
+/-- payload, vendor and conformsTo read back from a new attachment are the ones given, and the
+attachment validates -/
+theorem c19_newAttachment_fields {h : Hash} {payload a : Env} {v : Bytes} {c : Option Bytes}
+    (hk : (newKnownValue h KV_VENDOR).digest ≠ (newKnownValue h KV_CONFORMS_TO).digest)
+    (hd : ∀ c', c = some c' → (vendorAssertion h v).digest ≠ (conformsToAssertion h c').digest)
+    (ha : newAttachment h payload v c = .ok a) :
+    attachmentPayload a = .ok payload ∧ attachmentVendor h a = .ok v ∧
+    attachmentConformsTo h a = .ok c ∧ validateAttachment h a = .ok () := by
+  rw [newAttachment_eq] at ha
+  cases ha
+  have hg : AttGood h v c := ⟨hk, hd⟩
+  exact ⟨attachmentPayload_of h payload v c, attachmentVendor_of hg payload,
+    attachmentConformsTo_of hg payload, validateAttachment_of hg payload⟩
+
+example : (newKnownValue InvL.toyHash KV_VENDOR).digest ≠ (newKnownValue InvL.toyHash KV_CONFORMS_TO).digest ∧
+    (∀ c', some [0x63] = some c' →
+      (vendorAssertion InvL.toyHash [0x62]).digest ≠ (conformsToAssertion InvL.toyHash c').digest) ∧
+    ∃ a, newAttachment InvL.toyHash InvL.sNode [0x62] (some [0x63]) = .ok a := by
+  refine ⟨by decide +kernel, ?_, _, newAttachment_eq _ _ _ _⟩
+  intro c' hc; cases hc; decide +kernel
+
+/-! ### the attachment query after adding attachments -/
+
+/-- `add_attachment` never fails, and a fold of it neither -/
+theorem c19_addAttachment_total (h : Hash) (e payload : Env) (v : Bytes) (c : Option Bytes) :
+    addAttachment h e payload v c = addAssertionEnvelope h e (attachmentOf h payload v c) ∧
+    ∃ r, addAttachment h e payload v c = .ok r := by
+  refine ⟨addAttachment_eq h e payload v c, ?_⟩
+  rw [addAttachment_eq]
+  exact InvL.addAssertionEnvelope_isOk h (attachmentOf_slotOk h payload v c)
+
+/-- After attachments are added, `attachments()` returns exactly the attachments already there
+(assumed valid) and the added ones. -/
+theorem c19_attachments_exact {h : Hash} {e r : Env} {L : List (Env × Bytes × Option Bytes)}
+    (hi : Inv h e)
+    (hgood : ∀ t ∈ L, AttGood h t.2.1 t.2.2)
+    (hold : ∀ a ∈ assertionsWithPredicate e (newKnownValue h KV_ATTACHMENT), validateAttachment h a = .ok ())
+    (hcross : ∀ x ∈ e.assertions, ∀ t ∈ L, x.digest = (attOfT h t).digest → x = attOfT h t)
+    (hinj : DigInj (L.map (attOfT h)))
+    (hr : addAttachments h e L = .ok r) :
+    r.subject = e.subject ∧
+    ∃ l, attachmentsWith h r none none = .ok l ∧
+      ∀ a, a ∈ l ↔ a ∈ assertionsWithPredicate e (newKnownValue h KV_ATTACHMENT) ∨ ∃ t ∈ L, a = attOfT h t := by
+  obtain ⟨hs, has⟩ := addAttachments_ok hi hr
+  have hcross' : ∀ y ∈ e.assertions, ∀ x ∈ L.map (attOfT h), y.digest = x.digest → y = x := by
+    intro y hy x hx hd
+    obtain ⟨t, ht, rfl⟩ := List.mem_map.1 hx
+    exact hcross y hy t ht hd
+  have hmem : ∀ a, a ∈ assertionsWithPredicate r (newKnownValue h KV_ATTACHMENT) ↔
+      a ∈ assertionsWithPredicate e (newKnownValue h KV_ATTACHMENT) ∨ ∃ t ∈ L, a = attOfT h t := by
+    intro a
+    rw [awp_eq_filter, awp_eq_filter, List.mem_filter, List.mem_filter, has,
+      mem_foldl_normAdd' hinj hcross' a, List.mem_map]
+    constructor
+    · rintro ⟨h1 | ⟨t, ht, rfl⟩, h2⟩
+      · exact Or.inl ⟨h1, h2⟩
+      · exact Or.inr ⟨t, ht, rfl⟩
+    · rintro (⟨h1, h2⟩ | ⟨t, ht, rfl⟩)
+      · exact ⟨Or.inl h1, h2⟩
+      · exact ⟨Or.inr ⟨t, ht, rfl⟩, attachmentOf_matches h _ _ _⟩
+  refine ⟨hs, _, (attachmentsWith_ok_iff h r none none _).2 ⟨?_, rfl⟩, ?_⟩
+  · intro a ha
+    rcases (hmem a).1 ha with ha | ⟨t, ht, rfl⟩
+    · exact hold a ha
+    · exact validateAttachment_of (hgood t ht) t.1
+  · intro a
+    rw [List.mem_filter, hmem a]
+    simp [attachmentMatches]
+
+/-- the statement of the property: the receiver has no attachments, then exactly the added
+ones come back, each with the payload, vendor and conformsTo it was added with -/
+theorem c19_attachments_exact_fresh {h : Hash} {e r : Env} {L : List (Env × Bytes × Option Bytes)}
+    (hi : Inv h e)
+    (hgood : ∀ t ∈ L, AttGood h t.2.1 t.2.2)
+    (hnone : assertionsWithPredicate e (newKnownValue h KV_ATTACHMENT) = [])
+    (hfresh : ∀ x ∈ e.assertions, ∀ t ∈ L, x.digest ≠ (attOfT h t).digest)
+    (hinj : DigInj (L.map (attOfT h)))
+    (hr : addAttachments h e L = .ok r) :
+    ∃ l, attachmentsWith h r none none = .ok l ∧
+      (∀ a, a ∈ l ↔ ∃ t ∈ L, a = attOfT h t) ∧
+      (∀ t ∈ L, attachmentPayload (attOfT h t) = .ok t.1 ∧ attachmentVendor h (attOfT h t) = .ok t.2.1 ∧
+        attachmentConformsTo h (attOfT h t) = .ok t.2.2) := by
+  obtain ⟨_, l, hl, hm⟩ := c19_attachments_exact hi hgood (by rw [hnone]; intro a ha; cases ha)
+    (fun x hx t ht hd => absurd hd (hfresh x hx t ht)) hinj hr
+  refine ⟨l, hl, ?_, ?_⟩
+  · intro a; rw [hm a, hnone]; simp
+  · intro t ht
+    exact ⟨attachmentPayload_of h _ _ _, attachmentVendor_of (hgood t ht) _,
+      attachmentConformsTo_of (hgood t ht) _⟩
+
+/-- sample: two attachments (one with conformsTo) added to the two-assertion sample node -/
+example : ∃ r, Inv InvL.toyHash InvL.sNode ∧
+    (∀ t ∈ [(InvL.sSubj, ([0x61] : Bytes), (none : Option Bytes)), (InvL.sA1, [0x62], some [0x63])],
+      AttGood InvL.toyHash t.2.1 t.2.2) ∧
+    assertionsWithPredicate InvL.sNode (newKnownValue InvL.toyHash KV_ATTACHMENT) = [] ∧
+    (∀ x ∈ InvL.sNode.assertions,
+      ∀ t ∈ [(InvL.sSubj, ([0x61] : Bytes), (none : Option Bytes)), (InvL.sA1, [0x62], some [0x63])],
+      x.digest ≠ (attOfT InvL.toyHash t).digest) ∧
+    DigInj ([(InvL.sSubj, ([0x61] : Bytes), (none : Option Bytes)), (InvL.sA1, [0x62], some [0x63])].map
+      (attOfT InvL.toyHash)) ∧
+    addAttachments InvL.toyHash InvL.sNode
+      [(InvL.sSubj, [0x61], none), (InvL.sA1, [0x62], some [0x63])] = .ok r := by
+  obtain ⟨r, hr⟩ := addAttachments_total InvL.toyHash InvL.sNode_inv
+    [(InvL.sSubj, [0x61], none), (InvL.sA1, [0x62], some [0x63])]
+  have hk : (newKnownValue InvL.toyHash KV_VENDOR).digest ≠
+      (newKnownValue InvL.toyHash KV_CONFORMS_TO).digest := by decide +kernel
+  have hd : (vendorAssertion InvL.toyHash [0x62]).digest ≠ (conformsToAssertion InvL.toyHash [0x63]).digest := by
+    decide +kernel
+  -- the second attachment in explicit form (the kernel does not evaluate `mergeSort`)
+  have hA : attachmentObjAssertions InvL.toyHash [0x62] (some [0x63]) =
+      [vendorAssertion InvL.toyHash [0x62], conformsToAssertion InvL.toyHash [0x63]] := by
+    rw [attachmentObjAssertions_some _ _ _ hd, if_pos (by decide +kernel)]
+  have hA2 : attOfT InvL.toyHash (InvL.sA1, [0x62], some [0x63]) =
+      newAssertion InvL.toyHash (newKnownValue InvL.toyHash KV_ATTACHMENT)
+        (nodeOf InvL.toyHash (wrap InvL.toyHash InvL.sA1)
+          [vendorAssertion InvL.toyHash [0x62], conformsToAssertion InvL.toyHash [0x63]]) := by
+    simp only [attOfT, attachmentOf, attachmentObject, hA]
+  have hA1 : attOfT InvL.toyHash (InvL.sSubj, [0x61], none) =
+      newAssertion InvL.toyHash (newKnownValue InvL.toyHash KV_ATTACHMENT)
+        (nodeOf InvL.toyHash (wrap InvL.toyHash InvL.sSubj) [vendorAssertion InvL.toyHash [0x61]]) := rfl
+  refine ⟨r, InvL.sNode_inv, ?_, by decide +kernel, ?_, ?_, hr⟩
+  · intro t ht
+    simp only [List.mem_cons, List.not_mem_nil, or_false] at ht
+    rcases ht with rfl | rfl
+    · exact ⟨hk, fun c' hc => by cases hc⟩
+    · exact ⟨hk, fun c' hc => by cases hc; exact hd⟩
+  · intro x hx t ht
+    simp only [List.mem_cons, List.not_mem_nil, or_false] at ht
+    simp only [InvL.sNode, Env.assertions, List.mem_cons, List.not_mem_nil, or_false] at hx
+    rcases ht with rfl | rfl
+    · rw [hA1]; rcases hx with rfl | rfl <;> decide +kernel
+    · rw [hA2]; rcases hx with rfl | rfl <;> decide +kernel
+  · apply digInj_of_pairwise
+    simp only [List.map_cons, List.map_nil]
+    rw [hA1, hA2]
+    refine List.Pairwise.cons ?_ (List.Pairwise.cons (fun _ hb => by cases hb) List.Pairwise.nil)
+    intro b hb
+    rw [List.mem_singleton.1 hb]
+    decide +kernel
+
+/-! ### filtering -/
+
+/-- the filter of `attachments_with_vendor_and_conforms_to` on an attachment whose vendor and
+conformsTo are readable: it passes iff the requested vendor (if any) is its vendor and the
+requested conformsTo (if any) is its conformsTo -/
+theorem c19_attachmentMatches_iff {h : Hash} {a : Env} {v : Bytes} {c : Option Bytes}
+    (hv : attachmentVendor h a = .ok v) (hc : attachmentConformsTo h a = .ok c)
+    (vendor conf : Option Bytes) :
+    attachmentMatches h vendor conf a = true ↔
+      (∀ x, vendor = some x → x = v) ∧ (∀ x, conf = some x → c = some x) := by
+  unfold attachmentMatches
+  rw [hv, hc]
+  cases vendor <;> cases conf <;> cases c <;> simp <;>
+    first | exact eq_comm | (intro _; exact eq_comm)
+
+/-- the query returns exactly the valid attachments passing the filter; for the added ones
+that is: requested vendor = its vendor, requested conformsTo = its conformsTo -/
+theorem c19_filter_exact {h : Hash} {e r : Env} {L : List (Env × Bytes × Option Bytes)}
+    (hi : Inv h e)
+    (hgood : ∀ t ∈ L, AttGood h t.2.1 t.2.2)
+    (hold : ∀ a ∈ assertionsWithPredicate e (newKnownValue h KV_ATTACHMENT), validateAttachment h a = .ok ())
+    (hcross : ∀ x ∈ e.assertions, ∀ t ∈ L, x.digest = (attOfT h t).digest → x = attOfT h t)
+    (hinj : DigInj (L.map (attOfT h)))
+    (hr : addAttachments h e L = .ok r) (vendor conf : Option Bytes) :
+    ∃ l, attachmentsWith h r vendor conf = .ok l ∧
+      ∀ a, a ∈ l ↔
+        (a ∈ assertionsWithPredicate e (newKnownValue h KV_ATTACHMENT) ∧
+          attachmentMatches h vendor conf a = true) ∨
+        ∃ t ∈ L, a = attOfT h t ∧ (∀ x, vendor = some x → x = t.2.1) ∧
+          (∀ x, conf = some x → t.2.2 = some x) := by
+  obtain ⟨_, l0, hl0, hm0⟩ := c19_attachments_exact hi hgood hold hcross hinj hr
+  obtain ⟨hval, hl0'⟩ := (attachmentsWith_ok_iff h r none none l0).1 hl0
+  have hall : ∀ a, a ∈ l0 ↔ a ∈ assertionsWithPredicate r (newKnownValue h KV_ATTACHMENT) := by
+    intro a; rw [hl0', List.mem_filter]; simp [attachmentMatches]
+  refine ⟨_, (attachmentsWith_ok_iff h r vendor conf _).2 ⟨hval, rfl⟩, ?_⟩
+  intro a
+  rw [List.mem_filter, ← hall a, hm0 a]
+  constructor
+  · rintro ⟨h1 | ⟨t, ht, rfl⟩, h2⟩
+    · exact Or.inl ⟨h1, h2⟩
+    · refine Or.inr ⟨t, ht, rfl, ?_⟩
+      exact (c19_attachmentMatches_iff (attachmentVendor_of (hgood t ht) t.1)
+        (attachmentConformsTo_of (hgood t ht) t.1) vendor conf).1 h2
+  · rintro (⟨h1, h2⟩ | ⟨t, ht, rfl, h2⟩)
+    · exact ⟨Or.inl h1, h2⟩
+    · exact ⟨Or.inr ⟨t, ht, rfl⟩,
+        (c19_attachmentMatches_iff (attachmentVendor_of (hgood t ht) t.1)
+          (attachmentConformsTo_of (hgood t ht) t.1) vendor conf).2 h2⟩
+
+/-- the hypotheses of `c19_attachments_exact` / `c19_filter_exact` follow from those of
+`c19_attachments_exact_fresh`, which the sample above satisfies -/
+example {h : Hash} {e : Env} {L : List (Env × Bytes × Option Bytes)}
+    (hnone : assertionsWithPredicate e (newKnownValue h KV_ATTACHMENT) = [])
+    (hfresh : ∀ x ∈ e.assertions, ∀ t ∈ L, x.digest ≠ (attOfT h t).digest) :
+    (∀ a ∈ assertionsWithPredicate e (newKnownValue h KV_ATTACHMENT), validateAttachment h a = .ok ()) ∧
+    (∀ x ∈ e.assertions, ∀ t ∈ L, x.digest = (attOfT h t).digest → x = attOfT h t) :=
+  ⟨by rw [hnone]; intro a ha; exact absurd ha List.not_mem_nil,
+    fun x hx t ht hd => absurd hd (hfresh x hx t ht)⟩
+
+/-! ### the single-result form -/
+
+theorem c19_single_none_err {h : Hash} {e : Env} {vendor conf : Option Bytes}
+    (hl : attachmentsWith h e vendor conf = .ok []) :
+    attachmentWith h e vendor conf = .err "NonexistentAttachment" := by
+  simp [attachmentWith, hl, Res.bind]
+
+theorem c19_single_one_ok {h : Hash} {e a : Env} {vendor conf : Option Bytes}
+    (hl : attachmentsWith h e vendor conf = .ok [a]) :
+    attachmentWith h e vendor conf = .ok a := by
+  simp [attachmentWith, hl, Res.bind]
+
+theorem c19_single_many_err {h : Hash} {e : Env} {l : List Env} {vendor conf : Option Bytes}
+    (hl : attachmentsWith h e vendor conf = .ok l) (h2 : 2 ≤ l.length) :
+    attachmentWith h e vendor conf = .err "AmbiguousAttachment" := by
+  match l, h2 with
+  | a :: b :: l, _ => simp [attachmentWith, hl, Res.bind]
+
+/-- an error of the list form is the error of the single-result form; neither ever panics -/
+theorem c19_single_err_propagates {h : Hash} {e : Env} {x : String} {vendor conf : Option Bytes}
+    (hl : attachmentsWith h e vendor conf = .err x) :
+    attachmentWith h e vendor conf = .err x := by
+  simp [attachmentWith, hl, Res.bind]
+
+example : ∃ (l : List Env), 2 ≤ l.length := ⟨[default, default], by decide⟩
+
+/-! ### malformed attachments -/
+
+/-- (a) an element that is not an assertion — in particular an attachment assertion that
+carries assertions of its own (e.g. a salted one), which the query still selects -/
+theorem c19_malformed_not_assertion (h : Hash) {a : Env} (ha : a.isAssertion = false) :
+    validateAttachment h a = .err "InvalidAttachment" :=
+  validateAttachment_not_assertion h ha
+
+theorem c19_malformed_decorated (h : Hash) (e payload : Env) (v : Bytes) (c : Option Bytes)
+    (as : List Env) (d : Digest) (hm : Env.node (attachmentOf h payload v c) as d ∈ e.assertions)
+    (vendor conf : Option Bytes) :
+    Env.node (attachmentOf h payload v c) as d ∈
+      assertionsWithPredicate e (newKnownValue h KV_ATTACHMENT) ∧
+    validateAttachment h (.node (attachmentOf h payload v c) as d) = .err "InvalidAttachment" ∧
+    ∀ l, attachmentsWith h e vendor conf ≠ .ok l := by
+  have hmem : Env.node (attachmentOf h payload v c) as d ∈
+      assertionsWithPredicate e (newKnownValue h KV_ATTACHMENT) :=
+    mem_awp.2 ⟨hm, _, _, _, rfl, rfl⟩
+  have hbad := validateAttachment_not_assertion h
+    (a := .node (attachmentOf h payload v c) as d) rfl
+  refine ⟨hmem, hbad, ?_⟩
+  intro l hl
+  have := ((attachmentsWith_ok_iff h e vendor conf l).1 hl).1 _ hmem
+  rw [hbad] at this; cases this
+
+example (h : Hash) (s payload x : Env) (v : Bytes) (d d' : Digest) :
+    Env.node (attachmentOf h payload v none) [x] d ∈
+      (Env.node s [Env.node (attachmentOf h payload v none) [x] d] d').assertions := by
+  simp [Env.assertions]
+
+/-- (b) the object is not a wrapped envelope -/
+theorem c19_malformed_not_wrapped (h : Hash) (p o : Env) (d : Digest) (ho : o.subject.isWrapped = false) :
+    validateAttachment h (.assertion p o d) = .err "NotWrapped" := by
+  rw [validateAttachment_assertion]
+  have : unwrap o = .err "NotWrapped" := by
+    unfold unwrap
+    cases hs : o.subject <;> simp_all [isWrapped]
+  rw [this]; rfl
+
+example : (newLeaf InvL.toyHash (.uint 1)).subject.isWrapped = false := rfl
+
+/-- (c) no vendor assertion, or more than one -/
+theorem c19_malformed_vendor_count (h : Hash) (p o : Env) (d : Digest) {payload : Env}
+    (hp : unwrap o = .ok payload) :
+    (assertionsWithPredicate o (newKnownValue h KV_VENDOR) = [] →
+      validateAttachment h (.assertion p o d) = .err "NonexistentPredicate") ∧
+    (2 ≤ (assertionsWithPredicate o (newKnownValue h KV_VENDOR)).length →
+      validateAttachment h (.assertion p o d) = .err "AmbiguousPredicate") := by
+  rw [validateAttachment_assertion, hp]
+  constructor
+  · intro h0
+    simp [Res.bind, extractTextObjectForPredicate, assertionWithPredicate, h0]
+  · intro h2
+    match hl : assertionsWithPredicate o (newKnownValue h KV_VENDOR), h2 with
+    | a :: b :: l, _ => simp [Res.bind, extractTextObjectForPredicate, assertionWithPredicate, hl]
+
+example : unwrap (wrap InvL.toyHash InvL.sSubj) = .ok InvL.sSubj ∧
+    assertionsWithPredicate (wrap InvL.toyHash InvL.sSubj) (newKnownValue InvL.toyHash KV_VENDOR) = [] ∧
+    unwrap (nodeOf InvL.toyHash (wrap InvL.toyHash InvL.sSubj)
+      [vendorAssertion InvL.toyHash [0x61], vendorAssertion InvL.toyHash [0x62]]) = .ok InvL.sSubj ∧
+    2 ≤ (assertionsWithPredicate (nodeOf InvL.toyHash (wrap InvL.toyHash InvL.sSubj)
+      [vendorAssertion InvL.toyHash [0x61], vendorAssertion InvL.toyHash [0x62]])
+        (newKnownValue InvL.toyHash KV_VENDOR)).length :=
+  ⟨rfl, rfl, rfl, by decide +kernel⟩
+
+/-- (d) the vendor is not a text string (the error of the extraction is returned), or the
+vendor assertion is itself decorated -/
+theorem c19_malformed_vendor_not_text (h : Hash) (p o : Env) (d : Digest) {payload x : Env}
+    (hp : unwrap o = .ok payload)
+    (hl : assertionsWithPredicate o (newKnownValue h KV_VENDOR) = [x]) :
+    (∀ q ob d' m, x = .assertion q ob d' → extractText ob = .err m →
+      validateAttachment h (.assertion p o d) = .err m) ∧
+    (x.isAssertion = false → validateAttachment h (.assertion p o d) = .err "NotAssertion") := by
+  rw [validateAttachment_assertion, hp]
+  constructor
+  · intro q ob d' m hx hm
+    subst hx
+    simp [Res.bind, extractTextObjectForPredicate, assertionWithPredicate, hl, asObject, hm]
+  · intro hx
+    have : asObject x = none := by cases x <;> simp_all [asObject, isAssertion]
+    simp [Res.bind, extractTextObjectForPredicate, assertionWithPredicate, hl, this]
+
+example : unwrap (nodeOf InvL.toyHash (wrap InvL.toyHash InvL.sSubj)
+      [newAssertion InvL.toyHash (newKnownValue InvL.toyHash KV_VENDOR) (newLeaf InvL.toyHash (.uint 5))])
+      = .ok InvL.sSubj ∧
+    assertionsWithPredicate (nodeOf InvL.toyHash (wrap InvL.toyHash InvL.sSubj)
+      [newAssertion InvL.toyHash (newKnownValue InvL.toyHash KV_VENDOR) (newLeaf InvL.toyHash (.uint 5))])
+      (newKnownValue InvL.toyHash KV_VENDOR) =
+      [newAssertion InvL.toyHash (newKnownValue InvL.toyHash KV_VENDOR) (newLeaf InvL.toyHash (.uint 5))] ∧
+    extractText (newLeaf InvL.toyHash (.uint 5)) = .err "dep:WrongType" := by
+  refine ⟨rfl, ?_, rfl⟩
+  simp [assertionsWithPredicate, nodeOf, Env.assertions, newAssertion, Env.subject, asPredicate]
+
+/-- (e) all three fields read back but the attachment rebuilt from them has another digest -/
+theorem c19_malformed_digest (h : Hash) {a payload : Env} {v : Bytes} {c : Option Bytes}
+    (hp : attachmentPayload a = .ok payload) (hv : attachmentVendor h a = .ok v)
+    (hc : attachmentConformsTo h a = .ok c)
+    (hne : (attachmentOf h payload v c).digest ≠ a.digest) :
+    validateAttachment h a = .err "InvalidAttachment" := by
+  cases a with
+  | assertion p o d =>
+    simp only [attachmentPayload, attachmentVendor, attachmentConformsTo] at hp hv hc
+    rw [validateAttachment_assertion, hp, hv, hc]
+    simp only [Res.bind]
+    rw [if_neg]
+    simpa [Env.digest] using hne
+  | _ => simp [attachmentPayload] at hp
+
+/-- (e), concretely: one more assertion on the object of a good attachment (not a vendor or
+conformsTo assertion), the digest of the result differing from the original's (a
+collision-freedom fact) -/
+theorem c19_malformed_extra_assertion {h : Hash} {payload x o' : Env} {v : Bytes} {c : Option Bytes}
+    (hg : AttGood h v c) (hs : x.slotOk = true)
+    (hx : ∀ q ob d, x.subject = .assertion q ob d →
+      q.digest ≠ (newKnownValue h KV_VENDOR).digest ∧ q.digest ≠ (newKnownValue h KV_CONFORMS_TO).digest)
+    (hfresh : ∀ y ∈ (attachmentObject h payload v c).assertions, y.digest ≠ x.digest)
+    (ho : addAssertionEnvelope h (attachmentObject h payload v c) x = .ok o')
+    (hne : (attachmentOf h payload v c).digest ≠
+      (newAssertion h (newKnownValue h KV_ATTACHMENT) o').digest) :
+    validateAttachment h (newAssertion h (newKnownValue h KV_ATTACHMENT) o') = .err "InvalidAttachment" := by
+  have ho' := attachmentObject_add payload v c hs hfresh ho
+  have hxv := matchesPred_false_of (p := newKnownValue h KV_VENDOR) (fun q ob d hq => (hx q ob d hq).1)
+  have hxc := matchesPred_false_of (p := newKnownValue h KV_CONFORMS_TO) (fun q ob d hq => (hx q ob d hq).2)
+  have hperm : ∀ p, matchesPred x p = false →
+      (assertionsWithPredicate o' p).Perm (assertionsWithPredicate (attachmentObject h payload v c) p) := by
+    intro p hxp
+    rw [ho', awp_attachmentObject]
+    show ((sortByDigest (attachmentObjAssertions h v c ++ [x])).filter (fun a => matchesPred a p)).Perm _
+    refine (filter_sort_perm _ _).trans ?_
+    rw [List.filter_append]
+    simp [hxp]
+  have hlv : assertionsWithPredicate o' (newKnownValue h KV_VENDOR) = [vendorAssertion h v] := by
+    have := hperm _ hxv
+    rw [vendor_lookup hg payload] at this
+    exact List.perm_singleton.1 this
+  have hlc : assertionsWithPredicate o' (newKnownValue h KV_CONFORMS_TO) = confList h c := by
+    have := hperm _ hxc
+    rw [conformsTo_lookup hg payload] at this
+    revert this
+    generalize assertionsWithPredicate o' (newKnownValue h KV_CONFORMS_TO) = l
+    cases c with
+    | none => exact fun this => List.perm_nil.1 this
+    | some c' => exact fun this => List.perm_singleton.1 this
+  apply c19_malformed_digest h (payload := payload) (v := v) (c := c)
+  · rw [ho']; rfl
+  · exact extractVendor_of_lookup hlv
+  · exact extractConf_of_lookup hlc
+  · exact hne
+
+example : ∃ o', AttGood InvL.toyHash [0x61] none ∧
+    (newAssertion InvL.toyHash (newKnownValue InvL.toyHash KV_NOTE) (newLeaf InvL.toyHash (.uint 1))).slotOk = true ∧
+    (∀ q ob d, (newAssertion InvL.toyHash (newKnownValue InvL.toyHash KV_NOTE)
+        (newLeaf InvL.toyHash (.uint 1))).subject = .assertion q ob d →
+      q.digest ≠ (newKnownValue InvL.toyHash KV_VENDOR).digest ∧
+      q.digest ≠ (newKnownValue InvL.toyHash KV_CONFORMS_TO).digest) ∧
+    (∀ y ∈ (attachmentObject InvL.toyHash InvL.sSubj [0x61] none).assertions, y.digest ≠
+      (newAssertion InvL.toyHash (newKnownValue InvL.toyHash KV_NOTE) (newLeaf InvL.toyHash (.uint 1))).digest) ∧
+    addAssertionEnvelope InvL.toyHash (attachmentObject InvL.toyHash InvL.sSubj [0x61] none)
+      (newAssertion InvL.toyHash (newKnownValue InvL.toyHash KV_NOTE) (newLeaf InvL.toyHash (.uint 1))) = .ok o' ∧
+    (attachmentOf InvL.toyHash InvL.sSubj [0x61] none).digest ≠
+      (newAssertion InvL.toyHash (newKnownValue InvL.toyHash KV_ATTACHMENT) o').digest := by
+  have hs := newAssertion_slotOk InvL.toyHash (newKnownValue InvL.toyHash KV_NOTE) (newLeaf InvL.toyHash (.uint 1))
+  obtain ⟨o', ho⟩ := InvL.addAssertionEnvelope_isOk InvL.toyHash
+    (e := attachmentObject InvL.toyHash InvL.sSubj [0x61] none) hs
+  have hfresh : ∀ y ∈ (attachmentObject InvL.toyHash InvL.sSubj [0x61] none).assertions, y.digest ≠
+      (newAssertion InvL.toyHash (newKnownValue InvL.toyHash KV_NOTE) (newLeaf InvL.toyHash (.uint 1))).digest := by
+    intro y hy
+    have : y = vendorAssertion InvL.toyHash [0x61] := by
+      simpa [attachmentObject, nodeOf, Env.assertions, attachmentObjAssertions] using hy
+    rw [this]; decide +kernel
+  have ho' := attachmentObject_add InvL.sSubj [0x61] none hs hfresh ho
+  refine ⟨o', ⟨by decide +kernel, fun c' hc => by cases hc⟩, hs, ?_, hfresh, ho, ?_⟩
+  · intro q ob d hq
+    simp only [newAssertion, Env.subject, Env.assertion.injEq] at hq
+    obtain ⟨rfl, _, _⟩ := hq
+    exact ⟨by decide +kernel, by decide +kernel⟩
+  · rw [ho']
+    simp only [attachmentObjAssertions, List.cons_append, List.nil_append]
+    rw [sortByDigest_pair]
+    split <;> decide +kernel
+
+/-- `validate_attachment` and the attachment queries never panic; an invalid attachment
+assertion anywhere makes the list query (with any filter) fail, with the error of the first
+invalid one in stored order -/
+theorem c19_invalid_propagates (h : Hash) (e : Env) (vendor conf : Option Bytes) :
+    (∀ a x, validateAttachment h a ≠ .panic x) ∧
+    (∀ x, attachmentsWith h e vendor conf ≠ .panic x) ∧
+    ((∃ a ∈ assertionsWithPredicate e (newKnownValue h KV_ATTACHMENT), validateAttachment h a ≠ .ok ()) →
+      ∃ x, attachmentsWith h e vendor conf = .err x) ∧
+    (∀ l1 a l2 x, assertionsWithPredicate e (newKnownValue h KV_ATTACHMENT) = l1 ++ a :: l2 →
+      (∀ b ∈ l1, validateAttachment h b = .ok ()) → validateAttachment h a = .err x →
+      attachmentsWith h e vendor conf = .err x) := by
+  have hfirst : ∀ l1 a l2 x, assertionsWithPredicate e (newKnownValue h KV_ATTACHMENT) = l1 ++ a :: l2 →
+      (∀ b ∈ l1, validateAttachment h b = .ok ()) → validateAttachment h a = .err x →
+      attachmentsWith h e vendor conf = .err x := by
+    intro l1 a l2 x hl h1 ha
+    rw [attachmentsWith_eq, hl, validateAll_first_err h h1 ha]; rfl
+  -- a list with an invalid element splits at the first invalid one
+  have hsplit : ∀ (l : List Env), (∃ a ∈ l, validateAttachment h a ≠ .ok ()) →
+      ∃ l1 a l2, l = l1 ++ a :: l2 ∧ (∀ b ∈ l1, validateAttachment h b = .ok ()) ∧
+        validateAttachment h a ≠ .ok () := by
+    intro l
+    induction l with
+    | nil => rintro ⟨a, ha, _⟩; cases ha
+    | cons b l ih =>
+      intro hex
+      by_cases hb : validateAttachment h b = .ok ()
+      · obtain ⟨a, ha, hbad⟩ := hex
+        rcases List.mem_cons.1 ha with rfl | ha
+        · exact absurd hb hbad
+        · obtain ⟨l1, a', l2, rfl, h1, h2⟩ := ih ⟨a, ha, hbad⟩
+          refine ⟨b :: l1, a', l2, rfl, ?_, h2⟩
+          intro c hc
+          rcases List.mem_cons.1 hc with rfl | hc
+          · exact hb
+          · exact h1 c hc
+      · exact ⟨[], b, l, rfl, by simp, hb⟩
+  have hbadErr : (∃ a ∈ assertionsWithPredicate e (newKnownValue h KV_ATTACHMENT),
+      validateAttachment h a ≠ .ok ()) → ∃ x, attachmentsWith h e vendor conf = .err x := by
+    intro hex
+    obtain ⟨l1, a, l2, hl, h1, hbad⟩ := hsplit _ hex
+    cases hv : validateAttachment h a with
+    | ok u => cases u; exact absurd hv hbad
+    | err x => exact ⟨x, hfirst l1 a l2 x hl h1 hv⟩
+    | panic x => exact absurd hv (validateAttachment_no_panic h a x)
+  refine ⟨validateAttachment_no_panic h, ?_, hbadErr, hfirst⟩
+  intro x hp
+  by_cases hall : ∀ a ∈ assertionsWithPredicate e (newKnownValue h KV_ATTACHMENT), validateAttachment h a = .ok ()
+  · rw [((attachmentsWith_ok_iff h e vendor conf _).2 ⟨hall, rfl⟩)] at hp; cases hp
+  · obtain ⟨a, ha⟩ := Classical.not_forall.1 hall
+    obtain ⟨ha1, ha2⟩ := Classical.not_imp.1 ha
+    obtain ⟨y, hy⟩ := hbadErr ⟨a, ha1, ha2⟩
+    rw [hy] at hp; cases hp
+
+/-! ### types -/
+
+/-- the type queries never fail: `types` returns the objects of the 'isA' assertions -/
+theorem c19_types_total (h : Hash) (e t : Env) :
+    types h e = .ok ((assertionsWithPredicate e (newKnownValue h KV_IS_A)).filterMap
+      fun a => asObject a.subject) ∧
+    (∃ b, hasTypeEnvelope h e t = .ok b) ∧ (∀ x, getType h e ≠ .panic x) ∧
+    (∃ r, addType h e t = .ok r) := by
+  refine ⟨types_eq h e, ?_, ?_, addAssertionUnwrap_isOk h e _ _⟩
+  · simp [hasTypeEnvelope, types_eq]
+  · intro x
+    unfold getType
+    rw [types_eq]
+    split <;> simp_all
+
+/-- a type is reported iff it is (by digest) the object of one of the 'isA' assertions -/
+theorem c19_hasType_iff {h : Hash} {e t : Env} {b : Bool} (hb : hasTypeEnvelope h e t = .ok b) :
+    b = true ↔ ∃ a ∈ e.assertions, ∃ q o d, a.subject = .assertion q o d ∧
+      q.digest = (newKnownValue h KV_IS_A).digest ∧ o.digest = t.digest := by
+  simp only [hasTypeEnvelope, types_eq] at hb
+  cases hb
+  rw [List.any_eq_true]
+  constructor
+  · rintro ⟨x, hx, hd⟩
+    obtain ⟨a, ha, q, d, hs, hq⟩ := mem_typesList.1 hx
+    exact ⟨a, ha, q, x, d, hs, hq, by simpa using hd⟩
+  · rintro ⟨a, ha, q, o, d, hs, hq, hd⟩
+    exact ⟨o, mem_typesList.2 ⟨a, ha, q, d, hs, hq⟩, by simpa using hd⟩
+
+/-- a type added is reported (an assertion of the receiver with the digest of `'isA': t`, if
+there is one, being that assertion) -/
+theorem c19_addType_hasType {h : Hash} {e t r : Env} (hi : Inv h e)
+    (hcross : ∀ x ∈ e.assertions, x.digest = (isAAssertion h t).digest → x = isAAssertion h t)
+    (hr : addType h e t = .ok r) : hasTypeEnvelope h r t = .ok true := by
+  rw [addType_eq] at hr
+  obtain ⟨_, has, _⟩ := add_ok hi (isAAssertion_slotOk h t) hr
+  obtain ⟨b, hb⟩ := (c19_types_total h r t).2.1
+  rw [hb]
+  congr 1
+  rw [c19_hasType_iff hb]
+  refine ⟨isAAssertion h t, ?_, _, t, _, rfl, rfl, rfl⟩
+  rw [has]
+  exact self_mem_normAdd hcross
+
+example : Inv InvL.toyHash InvL.sNode ∧
+    (∀ x ∈ InvL.sNode.assertions, x.digest = (isAAssertion InvL.toyHash InvL.sSubj).digest →
+      x = isAAssertion InvL.toyHash InvL.sSubj) := by
+  refine ⟨InvL.sNode_inv, ?_⟩
+  intro x hx hd
+  simp only [InvL.sNode, Env.assertions, List.mem_cons, List.not_mem_nil, or_false] at hx
+  exfalso
+  rcases hx with rfl | rfl
+  · revert hd; decide +kernel
+  · revert hd; decide +kernel
+
+/-- the hypothesis `hcross` cannot be dropped: with the `'isA': t` assertion present in elided
+form, `add_type(t)` leaves the envelope as it is and `has_type(t)` answers false -/
+theorem c19_addType_elided_witness :
+    ∃ (h : Hash) (e t r : Env), Inv h e ∧ addType h e t = .ok r ∧ r = e ∧
+      hasTypeEnvelope h r t = .ok false := by
+  obtain ⟨r, hr⟩ := (c19_types_total InvL.toyHash elidedIsAEnv InvL.sSubj).2.2.2
+  have hre : r = elidedIsAEnv := by
+    rw [addType_eq] at hr
+    exact add_present_eq elidedIsAEnv_inv (isAAssertion_slotOk _ _)
+      ⟨_, List.mem_singleton.2 rfl, rfl⟩ hr
+  refine ⟨InvL.toyHash, elidedIsAEnv, InvL.sSubj, r, elidedIsAEnv_inv, hr, hre, ?_⟩
+  rw [hre]
+  simp [hasTypeEnvelope, types_eq, elidedIsAEnv, assertionsWithPredicate, Env.assertions, Env.subject,
+    asPredicate]
+
+/-- adding a type does not change the answer for any other type -/
+theorem c19_addType_other {h : Hash} {e t t' r : Env} (hi : Inv h e) (hne : t'.digest ≠ t.digest)
+    (hr : addType h e t = .ok r) : hasTypeEnvelope h r t' = hasTypeEnvelope h e t' := by
+  rw [addType_eq] at hr
+  obtain ⟨_, has, _⟩ := add_ok hi (isAAssertion_slotOk h t) hr
+  obtain ⟨b1, hb1⟩ := (c19_types_total h r t').2.1
+  obtain ⟨b2, hb2⟩ := (c19_types_total h e t').2.1
+  rw [hb1, hb2]
+  congr 1
+  rw [Bool.eq_iff_iff, c19_hasType_iff hb1, c19_hasType_iff hb2, has]
+  constructor
+  · rintro ⟨a, ha, q, o, d, hs, hq, hd⟩
+    rcases mem_normAdd_sub ha with ha | rfl
+    · exact ⟨a, ha, q, o, d, hs, hq, hd⟩
+    · simp only [isAAssertion, newAssertion, Env.subject, Env.assertion.injEq] at hs
+      obtain ⟨_, rfl, _⟩ := hs
+      exact absurd hd.symm (Ne.symm hne).symm
+  · rintro ⟨a, ha, rest⟩
+    exact ⟨a, mem_normAdd_of_mem ha, rest⟩
+
+/-- `get_type`: the type when there is exactly one, `AmbiguousType` otherwise (none included) -/
+theorem c19_getType_spec (h : Hash) (e : Env) :
+    (∀ t, types h e = .ok [t] → getType h e = .ok t) ∧
+    (∀ ts, types h e = .ok ts → ts.length ≠ 1 → getType h e = .err "AmbiguousType") := by
+  constructor
+  · intro t ht; simp [getType, ht]
+  · intro ts hts hl
+    unfold getType
+    rw [hts]
+    match ts, hl with
+    | [], _ => rfl
+    | a :: b :: l, _ => rfl
+
+/-- after `add_type(t)` on an envelope without types, `get_type` returns `t` -/
+theorem c19_getType_single {h : Hash} {e t r : Env} (hi : Inv h e)
+    (hnone : assertionsWithPredicate e (newKnownValue h KV_IS_A) = [])
+    (hfresh : ∀ x ∈ e.assertions, x.digest ≠ (isAAssertion h t).digest)
+    (hr : addType h e t = .ok r) : getType h r = .ok t := by
+  rw [addType_eq] at hr
+  have hp := awp_add_perm (p := newKnownValue h KV_IS_A) hi (isAAssertion_slotOk h t) hfresh hr
+  have hm : matchesPred (isAAssertion h t) (newKnownValue h KV_IS_A) = true := by
+    simp [isAAssertion, matchesPred_newAssertion]
+  rw [hm, hnone] at hp
+  have h1 := List.perm_singleton.1 hp
+  apply (c19_getType_spec h r).1
+  rw [types_eq, h1]
+  rfl
+
+/-- after two `add_type`s with different types on an envelope without types, `get_type`
+reports `AmbiguousType` (and both types are reported by `has_type`, by the theorems above) -/
+theorem c19_getType_ambiguous {h : Hash} {e t1 t2 r1 r2 : Env} (hi : Inv h e)
+    (hnone : assertionsWithPredicate e (newKnownValue h KV_IS_A) = [])
+    (hf1 : ∀ x ∈ e.assertions, x.digest ≠ (isAAssertion h t1).digest)
+    (hf2 : ∀ x ∈ e.assertions, x.digest ≠ (isAAssertion h t2).digest)
+    (hne : (isAAssertion h t1).digest ≠ (isAAssertion h t2).digest)
+    (hr1 : addType h e t1 = .ok r1) (hr2 : addType h r1 t2 = .ok r2) :
+    getType h r2 = .err "AmbiguousType" := by
+  rw [addType_eq] at hr1 hr2
+  obtain ⟨he, hc, _⟩ := rebuild_of_inv hi
+  have h1 := add_rebuild h hc (isAAssertion_slotOk h t1)
+  rw [he, hr1] at h1
+  cases h1
+  have h2 := add_rebuild h (s := e.subject) (as := normAdd e.assertions (isAAssertion h t1))
+    (Or.inr (normAdd_ne_nil _ _)) (isAAssertion_slotOk h t2)
+  rw [hr2] at h2
+  cases h2
+  have hf2' : ∀ x ∈ normAdd e.assertions (isAAssertion h t1), x.digest ≠ (isAAssertion h t2).digest := by
+    intro x hx
+    rcases mem_normAdd_sub hx with hx | rfl
+    · exact hf2 x hx
+    · exact hne
+  have hm1 : matchesPred (isAAssertion h t1) (newKnownValue h KV_IS_A) = true := by
+    simp [isAAssertion, matchesPred_newAssertion]
+  have hm2 : matchesPred (isAAssertion h t2) (newKnownValue h KV_IS_A) = true := by
+    simp [isAAssertion, matchesPred_newAssertion]
+  have hp : (assertionsWithPredicate
+      (rebuild h e.subject (normAdd (normAdd e.assertions (isAAssertion h t1)) (isAAssertion h t2)))
+      (newKnownValue h KV_IS_A)).Perm [isAAssertion h t1, isAAssertion h t2] := by
+    rw [awp_eq_filter, rebuild_assertions (normAdd_ne_nil _ _), normAdd_fresh hf2', normAdd_fresh hf1]
+    refine (filter_sort_perm _ _).trans ?_
+    rw [List.filter_append]
+    refine ((filter_sort_perm _ _).append_right _).trans ?_
+    rw [List.filter_append]
+    rw [awp_eq_filter] at hnone
+    rw [hnone]
+    simp [hm1, hm2]
+  apply (c19_getType_spec h _).2 _ (types_eq h _)
+  have hlen := (hp.filterMap (fun a => asObject a.subject)).length_eq
+  rw [hlen]
+  simp [isAAssertion, newAssertion, Env.subject, asObject]
+
+example : Inv InvL.toyHash InvL.sSubj ∧
+    assertionsWithPredicate InvL.sSubj (newKnownValue InvL.toyHash KV_IS_A) = [] ∧
+    (∀ x ∈ InvL.sSubj.assertions, x.digest ≠ (isAAssertion InvL.toyHash InvL.sSubj).digest) ∧
+    (∀ x ∈ InvL.sSubj.assertions, x.digest ≠ (isAAssertion InvL.toyHash InvL.sA3).digest) ∧
+    (isAAssertion InvL.toyHash InvL.sSubj).digest ≠ (isAAssertion InvL.toyHash InvL.sA3).digest := by
+  refine ⟨InvL.sSubj_inv, by decide +kernel, ?_, ?_, by decide +kernel⟩
+  · intro x hx; simp [InvL.sSubj, newLeaf, Env.assertions] at hx
+  · intro x hx; simp [InvL.sSubj, newLeaf, Env.assertions] at hx
+
 end EnvVerif
